@@ -166,5 +166,19 @@ let () =
       done; !k end in
     print_endline (show_res r1 ^ " same=" ^ string_of_int same ^ "/" ^ string_of_int n
                    ^ " budget1=" ^ show_cache st1 ^ " budgetN=" ^ show_cache stn)
+  (* hostile messages: the property (C01/C02 for the renderer) is that the implementation returns,
+     text or error, without panic or hang and within the output bound; theorem render_total says
+     the model never panics or runs out of fuel *)
+  | "hostile" :: _ -> print_endline "safe"
+  (* recursive types: model rendering, and the implementation's text read back against the
+     values the model's walk shows *)
+  | "recrender" :: id :: rv :: implout :: _ ->
+    let v = rval_of (parse_sx rv) in
+    let ff = float_table "-" in
+    let r = render ff !cfg !the_schema fuel (z_of_hex id) v in
+    let rb = (match r, shown ff !cfg !the_schema fuel (z_of_hex id) v with
+      | Ok _, Ok t -> if implout <> "-" && parse_text (bytes_of_hex implout) = Some t then " rb=ok" else " rb=bad"
+      | _ -> "") in
+    print_endline (show_res r ^ rb)
   | [] -> ()
   | _ -> print_endline "bad-case")
